@@ -304,7 +304,7 @@ func init() {
 			e.curFoot.read(p)
 		}
 		ro := p.Obj.Aux.(*reObj)
-		s := a[1].(StrV)
+		s := e.resolveStr(a[1].(StrV))
 		tf := e.tf
 		strT := fn.Signature.Results().At(0).Type()
 		_ = strT
@@ -362,7 +362,7 @@ func init() {
 			e.curFoot.read(p)
 		}
 		ro := p.Obj.Aux.(*reObj)
-		s := a[1].(StrV)
+		s := e.resolveStr(a[1].(StrV))
 		if s.IsCh {
 			return e.tf.Bool(e.reFind(ro, s) != nil)
 		}
